@@ -192,6 +192,28 @@ def flush_before_publication(ctx):
                  "(append flushes only under flush_on_insert)", ctx.prog.loc(g.nodes[pnode].ast))
 
 
+@rule("C11.R8", ["C11", "C13"], min_instances=1, design="3.11")
+def fallible_preparation_precedes_close(ctx):
+    """In the swap, every step on the temporary handle that can fail on its own (flushing the staged rows: ENOSPC/EFBIG/EIO) happens while the primary handle is still open: a failure there must leave the storage object usable with its old contents."""
+    cls = csv_cls(ctx)
+    f = ctx.prog.func(f"{cls}._swap_temp_with_primary", "C11.R8")
+    g = ctx.cfg(f, exceptional=False)
+    ne = _node_effects(ctx, g, f, cls)
+    closes = [i for i, es in ne.items() if "PRIMARY.close" in es]
+    flushes = [i for i, es in ne.items() if "TEMP.flush" in es]
+    if not closes:
+        yield Ob("C11.R8", ["C11", "C13"], f"{f.qual} | temp flush precedes closing the primary", True,
+                 "the swap does not close the primary handle", f.loc(), nontrivial=False)
+        return
+    after = g.reachable(closes)
+    late = [i for i in flushes if i in after]
+    yield Ob("C11.R8", ["C11", "C13"], f"{f.qual} | temp flush precedes closing the primary", not late,
+             "staged rows are flushed before the primary handle is closed" if not late else
+             f"`{norm(g.nodes[late[0]].ast, 50)}` runs after the primary handle was closed: when it fails (disk full) the file still "
+             f"holds the old contents but the storage has no open handle, so every later call fails", 
+             ctx.prog.loc(g.nodes[late[0]].ast) if late else f.loc())
+
+
 def _node_effects_const(ctx, g, f: Func, storage: str, consts: Dict[str, object]) -> Dict[int, Set[str]]:
     """Per-node primitive effects with roles specialised on constant parameters."""
     from ..effects import live_nodes
@@ -328,7 +350,14 @@ def mode_table(ctx, cls: str, prop: str) -> Tuple[str, Set[str]]:
     raise AnalysisError("modes", f"{cls}.{prop}: literal mode table not found")
 
 
-@rule("C04.R5", ["C04", "C12", "C13", "C01", "C02", "C03", "C06"], min_instances=1, design="3.4")
+def _valid_text_mode(v: str) -> bool:
+    """open() accepts exactly one of r/w/a/x, at most one '+', and 't' (text); no other characters, none twice."""
+    if len(set(v)) != len(v) or set(v) - set("rwax+t"):
+        return False
+    return sum(ch in v for ch in "rwax") == 1
+
+
+@rule("C04.R5", ["C04", "C12", "C13", "C01", "C02", "C03", "C06", "C16"], min_instances=1, design="3.4")
 def reopen_does_not_truncate(ctx):
     """The primary file is never reopened in a truncating mode after new contents were published."""
     cls = csv_cls(ctx)
@@ -351,6 +380,17 @@ def reopen_does_not_truncate(ctx):
             n_open += 1
             me = kw(n, "mode") or (n.args[1] if len(n.args) > 1 else None)
             bad = []
+            # the handle that becomes the primary handle again is opened on the primary path
+            st_ = stmt_of(n)
+            if isinstance(st_, ast.Assign) and st_.value is n and n.args:
+                env_f = ctx.eff._role_env(f, list(walk_local(f.node)))
+                tr = set()
+                for t_ in st_.targets:
+                    tr |= set(ctx.eff.expr_roles(t_, roles, env_f))
+                pr = set(ctx.eff.expr_roles(n.args[0], roles, env_f))
+                if "PRIMARY" in tr and "PRIMARY_PATH" not in pr:
+                    bad.append(f"the primary handle is reopened on `{norm(n.args[0], 40)}` ({sorted(pr) or 'not the primary path'}): later "
+                               f"appends go to another file and are lost when it is removed")
             if me is None:
                 bad.append("reopened read-only (default mode): the storage can no longer be written")
             else:
@@ -363,7 +403,10 @@ def reopen_does_not_truncate(ctx):
                                    f"published")
                     elif isinstance(v, str) and ("+" not in v and not v.startswith("a")) and m != v:
                         bad.append(f"access_mode={m!r}: reopen mode {v!r} is not writable")
-            yield Ob("C04.R5", ["C04", "C12", "C13", "C01", "C02", "C03", "C06"], f"{f.qual} | reopen mode | {norm(n, 80)}", not bad,
+                    elif isinstance(v, str) and not _valid_text_mode(v):
+                        bad.append(f"access_mode={m!r}: reopen mode {v!r} is not a mode open() accepts: the swap publishes the "
+                                   f"new contents and then fails, leaving the storage without a handle")
+            yield Ob("C04.R5", ["C04", "C12", "C13", "C01", "C02", "C03", "C06", "C16"], f"{f.qual} | reopen mode | {norm(n, 80)}", not bad,
                      "; ".join(bad) if bad else f"no write-capable access mode {sorted(wmodes)} reopens with truncation",
                      ctx.prog.loc(n))
     if not n_open:
@@ -642,6 +685,31 @@ def temp_store_pairing(ctx):
     if needs_unlink and not unlinks:
         bad.append("file created with delete=False is closed but never removed: one leaked temporary file per "
                    "update/remove" + (" (a rename consumes it only when the swap happens)" if consumed else ""))
+    # the release statements must run exactly when there is a temporary file: under `handle is not None`
+    # (and, for the unlink, `the file exists`), never under the opposite
+    from ..logic import consistent_with as _cw, guard_clauses as _gc, guards as _gs
+    env_cu = ctx.eff._role_env(cu, list(walk_local(cu.node)))
+    for c in walk_local(cu.node):
+        if not isinstance(c, ast.Call):
+            continue
+        effs = ctx.eff.primitive(c, cu, roles, env_cu)
+        is_close = any(e == "TEMP.close" or e.startswith("TEMP.close") for e in effs)
+        is_unlink = any(e.startswith("FS.unlink(TEMP_PATH") or e.startswith("FS.path_unlink(TEMP_PATH") for e in effs)
+        if not (is_close or is_unlink):
+            continue
+        cl = _gc(_gs(c))
+        atoms = {a for cc_ in cl for a, _ in cc_}
+        facts = []
+        for a in atoms:
+            if a.startswith("is(") and "None" in a and "_temp" in a:
+                facts.append((a, False))
+            elif a.startswith("truthy(") and "_temp" in a and "exists" not in a:
+                facts.append((a, True))
+            elif "exists(" in a or "isfile(" in a:
+                facts.append((a, True))
+        if not _cw(cl, facts):
+            bad.append(f"`{norm(c, 50)}` (line {c.lineno}) is not reached when a temporary file exists "
+                       f"(guards {sorted(map(sorted, cl))[:2]}): the file is left behind after every update/remove")
     yield Ob("C15.R3", ["C15"], f"{cu.qual} | releases the temporary file", not bad,
              "; ".join(bad) if bad else "closes the handle and removes the file", cu.loc())
     # (a2) every acquisition starts from a fresh, empty temporary store
